@@ -1,5 +1,5 @@
 // auto-generated: "lalrpop 0.23.1"
-// sha3: b0247b2b0ad371d38c7b485d1fbf667322db38126ae68176839ebd1c569e5a13
+// sha3: 115ae46519244b8ce98b0eae4e713f16316d84a2be400648353e7e85bf898602
 use crate::rt::*;
 #[allow(unused_extern_crates)]
 extern crate lalrpop_util as __lalrpop_util;
@@ -65,6 +65,7 @@ mod __parse__S {
      {
         _40L((i64, i64, i64)),
         _40R((i64, i64, i64)),
+        Q((i64, Tree, i64)),
         S((i64, Tree, i64)),
         X((i64, Tree, i64)),
         Y((i64, Tree, i64)),
@@ -119,7 +120,7 @@ mod __parse__S {
             let (__lookahead, __nt) = __result;
             match __nt {
                 __Nonterminal::S(__sym0) => {
-                    __result = __state3(__tokens, __lookahead, __sym0, core::marker::PhantomData::<()>)?;
+                    __result = __state5(__tokens, __lookahead, __sym0, core::marker::PhantomData::<()>)?;
                 }
                 _ => {
                     return Ok((__lookahead, __nt));
@@ -145,7 +146,7 @@ mod __parse__S {
         match __lookahead {
             Some((__loc1, __tok @ Tok('e', _, _, _), __loc2)) => {
                 let __sym1 = (__loc1, (__tok), __loc2);
-                __result = __state6(__tokens, __sym1, core::marker::PhantomData::<()>)?;
+                __result = __state3(__tokens, __sym1, core::marker::PhantomData::<()>)?;
             }
             _ => {
                 #[allow(clippy::needless_raw_string_hashes)]
@@ -176,11 +177,11 @@ mod __parse__S {
             let (__lookahead, __nt) = __result;
             match __nt {
                 __Nonterminal::X(__sym1) => {
-                    __result = __state4(__tokens, __lookahead, __sym0, __sym1, core::marker::PhantomData::<()>)?;
+                    __result = __state6(__tokens, __lookahead, __sym0, __sym1, core::marker::PhantomData::<()>)?;
                     return Ok(__result);
                 }
                 __Nonterminal::Y(__sym1) => {
-                    __result = __state5(__tokens, __lookahead, __sym0, __sym1, core::marker::PhantomData::<()>)?;
+                    __result = __state7(__tokens, __lookahead, __sym0, __sym1, core::marker::PhantomData::<()>)?;
                     return Ok(__result);
                 }
                 _ => {
@@ -207,7 +208,7 @@ mod __parse__S {
         match __lookahead {
             Some((__loc1, __tok @ Tok('e', _, _, _), __loc2)) => {
                 let __sym1 = (__loc1, (__tok), __loc2);
-                __result = __state13(__tokens, __sym1, core::marker::PhantomData::<()>)?;
+                __result = __state4(__tokens, __sym1, core::marker::PhantomData::<()>)?;
             }
             _ => {
                 #[allow(clippy::needless_raw_string_hashes)]
@@ -238,11 +239,11 @@ mod __parse__S {
             let (__lookahead, __nt) = __result;
             match __nt {
                 __Nonterminal::X(__sym1) => {
-                    __result = __state7(__tokens, __lookahead, __sym0, __sym1, core::marker::PhantomData::<()>)?;
+                    __result = __state8(__tokens, __lookahead, __sym0, __sym1, core::marker::PhantomData::<()>)?;
                     return Ok(__result);
                 }
                 __Nonterminal::Y(__sym1) => {
-                    __result = __state8(__tokens, __lookahead, __sym0, __sym1, core::marker::PhantomData::<()>)?;
+                    __result = __state9(__tokens, __lookahead, __sym0, __sym1, core::marker::PhantomData::<()>)?;
                     return Ok(__result);
                 }
                 _ => {
@@ -253,6 +254,122 @@ mod __parse__S {
     }
 
     fn __state3<
+        __TOKENS: Iterator<Item=Result<(i64, Tok, i64),__lalrpop_util::ParseError<i64, Tok, u64>>>,
+    >(
+        __tokens: &mut __TOKENS,
+        __sym0: (i64, Tok, i64),
+        _: core::marker::PhantomData<()>,
+    ) -> Result<(Option<(i64, Tok, i64)>, __Nonterminal<>), __lalrpop_util::ParseError<i64, Tok, u64>>
+    {
+        let mut __result: (Option<(i64, Tok, i64)>, __Nonterminal<>);
+        let __lookahead = match __tokens.next() {
+            Some(Ok(v)) => Some(v),
+            Some(Err(e)) => return Err(e),
+            None => None,
+        };
+        match __lookahead {
+            Some((__loc1, __tok @ Tok('f', _, _, _), __loc2)) => {
+                let __sym1 = (__loc1, (__tok), __loc2);
+                __result = __state13(__tokens, __sym1, core::marker::PhantomData::<()>)?;
+            }
+            _ => {
+                #[allow(clippy::needless_raw_string_hashes)]
+                let __expected = alloc::vec![
+                    r###""q""###.to_string(),
+                ];
+                return Err(
+                    match __lookahead {
+                        Some(__token) => {
+                            __lalrpop_util::ParseError::UnrecognizedToken {
+                                token: __token,
+                                expected: __expected,
+                            }
+                        }
+                        None => {
+                            let __location = __sym0.2.clone();
+                            __lalrpop_util::ParseError::UnrecognizedEof {
+                                location: __location,
+                                expected: __expected,
+                            }
+                        }
+                    }
+                )
+            }
+        }
+        #[allow(clippy::never_loop)]
+        loop {
+            let (__lookahead, __nt) = __result;
+            match __nt {
+                __Nonterminal::Q(__sym1) => {
+                    __result = __state12(__tokens, __lookahead, __sym0, __sym1, core::marker::PhantomData::<()>)?;
+                    return Ok(__result);
+                }
+                _ => {
+                    return Ok((__lookahead, __nt));
+                }
+            }
+        }
+    }
+
+    fn __state4<
+        __TOKENS: Iterator<Item=Result<(i64, Tok, i64),__lalrpop_util::ParseError<i64, Tok, u64>>>,
+    >(
+        __tokens: &mut __TOKENS,
+        __sym0: (i64, Tok, i64),
+        _: core::marker::PhantomData<()>,
+    ) -> Result<(Option<(i64, Tok, i64)>, __Nonterminal<>), __lalrpop_util::ParseError<i64, Tok, u64>>
+    {
+        let mut __result: (Option<(i64, Tok, i64)>, __Nonterminal<>);
+        let __lookahead = match __tokens.next() {
+            Some(Ok(v)) => Some(v),
+            Some(Err(e)) => return Err(e),
+            None => None,
+        };
+        match __lookahead {
+            Some((__loc1, __tok @ Tok('f', _, _, _), __loc2)) => {
+                let __sym1 = (__loc1, (__tok), __loc2);
+                __result = __state13(__tokens, __sym1, core::marker::PhantomData::<()>)?;
+            }
+            _ => {
+                #[allow(clippy::needless_raw_string_hashes)]
+                let __expected = alloc::vec![
+                    r###""q""###.to_string(),
+                ];
+                return Err(
+                    match __lookahead {
+                        Some(__token) => {
+                            __lalrpop_util::ParseError::UnrecognizedToken {
+                                token: __token,
+                                expected: __expected,
+                            }
+                        }
+                        None => {
+                            let __location = __sym0.2.clone();
+                            __lalrpop_util::ParseError::UnrecognizedEof {
+                                location: __location,
+                                expected: __expected,
+                            }
+                        }
+                    }
+                )
+            }
+        }
+        #[allow(clippy::never_loop)]
+        loop {
+            let (__lookahead, __nt) = __result;
+            match __nt {
+                __Nonterminal::Q(__sym1) => {
+                    __result = __state16(__tokens, __lookahead, __sym0, __sym1, core::marker::PhantomData::<()>)?;
+                    return Ok(__result);
+                }
+                _ => {
+                    return Ok((__lookahead, __nt));
+                }
+            }
+        }
+    }
+
+    fn __state5<
         __TOKENS: Iterator<Item=Result<(i64, Tok, i64),__lalrpop_util::ParseError<i64, Tok, u64>>>,
     >(
         __tokens: &mut __TOKENS,
@@ -300,7 +417,7 @@ mod __parse__S {
         }
     }
 
-    fn __state4<
+    fn __state6<
         __TOKENS: Iterator<Item=Result<(i64, Tok, i64),__lalrpop_util::ParseError<i64, Tok, u64>>>,
     >(
         __tokens: &mut __TOKENS,
@@ -314,121 +431,12 @@ mod __parse__S {
         match __lookahead {
             Some((__loc1, __tok @ Tok('d', _, _, _), __loc2)) => {
                 let __sym2 = (__loc1, (__tok), __loc2);
-                __result = __state9(__tokens, __sym0, __sym1, __sym2, core::marker::PhantomData::<()>)?;
-                return Ok(__result);
-            }
-            _ => {
-                #[allow(clippy::needless_raw_string_hashes)]
-                let __expected = alloc::vec![
-                    r###""d""###.to_string(),
-                ];
-                return Err(
-                    match __lookahead {
-                        Some(__token) => {
-                            __lalrpop_util::ParseError::UnrecognizedToken {
-                                token: __token,
-                                expected: __expected,
-                            }
-                        }
-                        None => {
-                            let __location = __sym1.2.clone();
-                            __lalrpop_util::ParseError::UnrecognizedEof {
-                                location: __location,
-                                expected: __expected,
-                            }
-                        }
-                    }
-                )
-            }
-        }
-    }
-
-    fn __state5<
-        __TOKENS: Iterator<Item=Result<(i64, Tok, i64),__lalrpop_util::ParseError<i64, Tok, u64>>>,
-    >(
-        __tokens: &mut __TOKENS,
-        __lookahead: Option<(i64, Tok, i64)>,
-        __sym0: (i64, Tok, i64),
-        __sym1: (i64, Tree, i64),
-        _: core::marker::PhantomData<()>,
-    ) -> Result<(Option<(i64, Tok, i64)>, __Nonterminal<>), __lalrpop_util::ParseError<i64, Tok, u64>>
-    {
-        let mut __result: (Option<(i64, Tok, i64)>, __Nonterminal<>);
-        match __lookahead {
-            Some((__loc1, __tok @ Tok('c', _, _, _), __loc2)) => {
-                let __sym2 = (__loc1, (__tok), __loc2);
                 __result = __state10(__tokens, __sym0, __sym1, __sym2, core::marker::PhantomData::<()>)?;
                 return Ok(__result);
             }
             _ => {
                 #[allow(clippy::needless_raw_string_hashes)]
                 let __expected = alloc::vec![
-                    r###""c""###.to_string(),
-                ];
-                return Err(
-                    match __lookahead {
-                        Some(__token) => {
-                            __lalrpop_util::ParseError::UnrecognizedToken {
-                                token: __token,
-                                expected: __expected,
-                            }
-                        }
-                        None => {
-                            let __location = __sym1.2.clone();
-                            __lalrpop_util::ParseError::UnrecognizedEof {
-                                location: __location,
-                                expected: __expected,
-                            }
-                        }
-                    }
-                )
-            }
-        }
-    }
-
-    fn __state6<
-        __TOKENS: Iterator<Item=Result<(i64, Tok, i64),__lalrpop_util::ParseError<i64, Tok, u64>>>,
-    >(
-        __tokens: &mut __TOKENS,
-        __sym0: (i64, Tok, i64),
-        _: core::marker::PhantomData<()>,
-    ) -> Result<(Option<(i64, Tok, i64)>, __Nonterminal<>), __lalrpop_util::ParseError<i64, Tok, u64>>
-    {
-        let mut __result: (Option<(i64, Tok, i64)>, __Nonterminal<>);
-        let __lookahead = match __tokens.next() {
-            Some(Ok(v)) => Some(v),
-            Some(Err(e)) => return Err(e),
-            None => None,
-        };
-        match __lookahead {
-            Some((_, Tok('d', _, _, _), _)) => {
-                let __start = __sym0.0.clone();
-                let __end = __sym0.2.clone();
-                let __nt = super::__action19::<>(__sym0);
-                let __nt = __Nonterminal::X((
-                    __start,
-                    __nt,
-                    __end,
-                ));
-                __result = (__lookahead, __nt);
-                return Ok(__result);
-            }
-            Some((_, Tok('c', _, _, _), _)) => {
-                let __start = __sym0.0.clone();
-                let __end = __sym0.2.clone();
-                let __nt = super::__action20::<>(__sym0);
-                let __nt = __Nonterminal::Y((
-                    __start,
-                    __nt,
-                    __end,
-                ));
-                __result = (__lookahead, __nt);
-                return Ok(__result);
-            }
-            _ => {
-                #[allow(clippy::needless_raw_string_hashes)]
-                let __expected = alloc::vec![
-                    r###""c""###.to_string(),
                     r###""d""###.to_string(),
                 ];
                 return Err(
@@ -440,7 +448,7 @@ mod __parse__S {
                             }
                         }
                         None => {
-                            let __location = __sym0.2.clone();
+                            let __location = __sym1.2.clone();
                             __lalrpop_util::ParseError::UnrecognizedEof {
                                 location: __location,
                                 expected: __expected,
@@ -507,9 +515,52 @@ mod __parse__S {
     {
         let mut __result: (Option<(i64, Tok, i64)>, __Nonterminal<>);
         match __lookahead {
+            Some((__loc1, __tok @ Tok('c', _, _, _), __loc2)) => {
+                let __sym2 = (__loc1, (__tok), __loc2);
+                __result = __state14(__tokens, __sym0, __sym1, __sym2, core::marker::PhantomData::<()>)?;
+                return Ok(__result);
+            }
+            _ => {
+                #[allow(clippy::needless_raw_string_hashes)]
+                let __expected = alloc::vec![
+                    r###""c""###.to_string(),
+                ];
+                return Err(
+                    match __lookahead {
+                        Some(__token) => {
+                            __lalrpop_util::ParseError::UnrecognizedToken {
+                                token: __token,
+                                expected: __expected,
+                            }
+                        }
+                        None => {
+                            let __location = __sym1.2.clone();
+                            __lalrpop_util::ParseError::UnrecognizedEof {
+                                location: __location,
+                                expected: __expected,
+                            }
+                        }
+                    }
+                )
+            }
+        }
+    }
+
+    fn __state9<
+        __TOKENS: Iterator<Item=Result<(i64, Tok, i64),__lalrpop_util::ParseError<i64, Tok, u64>>>,
+    >(
+        __tokens: &mut __TOKENS,
+        __lookahead: Option<(i64, Tok, i64)>,
+        __sym0: (i64, Tok, i64),
+        __sym1: (i64, Tree, i64),
+        _: core::marker::PhantomData<()>,
+    ) -> Result<(Option<(i64, Tok, i64)>, __Nonterminal<>), __lalrpop_util::ParseError<i64, Tok, u64>>
+    {
+        let mut __result: (Option<(i64, Tok, i64)>, __Nonterminal<>);
+        match __lookahead {
             Some((__loc1, __tok @ Tok('d', _, _, _), __loc2)) => {
                 let __sym2 = (__loc1, (__tok), __loc2);
-                __result = __state12(__tokens, __sym0, __sym1, __sym2, core::marker::PhantomData::<()>)?;
+                __result = __state15(__tokens, __sym0, __sym1, __sym2, core::marker::PhantomData::<()>)?;
                 return Ok(__result);
             }
             _ => {
@@ -538,169 +589,7 @@ mod __parse__S {
         }
     }
 
-    fn __state9<
-        __TOKENS: Iterator<Item=Result<(i64, Tok, i64),__lalrpop_util::ParseError<i64, Tok, u64>>>,
-    >(
-        __tokens: &mut __TOKENS,
-        __sym0: (i64, Tok, i64),
-        __sym1: (i64, Tree, i64),
-        __sym2: (i64, Tok, i64),
-        _: core::marker::PhantomData<()>,
-    ) -> Result<(Option<(i64, Tok, i64)>, __Nonterminal<>), __lalrpop_util::ParseError<i64, Tok, u64>>
-    {
-        let mut __result: (Option<(i64, Tok, i64)>, __Nonterminal<>);
-        let __lookahead = match __tokens.next() {
-            Some(Ok(v)) => Some(v),
-            Some(Err(e)) => return Err(e),
-            None => None,
-        };
-        match __lookahead {
-            None => {
-                let __start = __sym0.0.clone();
-                let __end = __sym2.2.clone();
-                let __nt = super::__action15::<>(__sym0, __sym1, __sym2);
-                let __nt = __Nonterminal::S((
-                    __start,
-                    __nt,
-                    __end,
-                ));
-                __result = (__lookahead, __nt);
-                return Ok(__result);
-            }
-            _ => {
-                #[allow(clippy::needless_raw_string_hashes)]
-                let __expected = alloc::vec![
-                ];
-                return Err(
-                    match __lookahead {
-                        Some(__token) => {
-                            __lalrpop_util::ParseError::UnrecognizedToken {
-                                token: __token,
-                                expected: __expected,
-                            }
-                        }
-                        None => {
-                            let __location = __sym2.2.clone();
-                            __lalrpop_util::ParseError::UnrecognizedEof {
-                                location: __location,
-                                expected: __expected,
-                            }
-                        }
-                    }
-                )
-            }
-        }
-    }
-
     fn __state10<
-        __TOKENS: Iterator<Item=Result<(i64, Tok, i64),__lalrpop_util::ParseError<i64, Tok, u64>>>,
-    >(
-        __tokens: &mut __TOKENS,
-        __sym0: (i64, Tok, i64),
-        __sym1: (i64, Tree, i64),
-        __sym2: (i64, Tok, i64),
-        _: core::marker::PhantomData<()>,
-    ) -> Result<(Option<(i64, Tok, i64)>, __Nonterminal<>), __lalrpop_util::ParseError<i64, Tok, u64>>
-    {
-        let mut __result: (Option<(i64, Tok, i64)>, __Nonterminal<>);
-        let __lookahead = match __tokens.next() {
-            Some(Ok(v)) => Some(v),
-            Some(Err(e)) => return Err(e),
-            None => None,
-        };
-        match __lookahead {
-            None => {
-                let __start = __sym0.0.clone();
-                let __end = __sym2.2.clone();
-                let __nt = super::__action16::<>(__sym0, __sym1, __sym2);
-                let __nt = __Nonterminal::S((
-                    __start,
-                    __nt,
-                    __end,
-                ));
-                __result = (__lookahead, __nt);
-                return Ok(__result);
-            }
-            _ => {
-                #[allow(clippy::needless_raw_string_hashes)]
-                let __expected = alloc::vec![
-                ];
-                return Err(
-                    match __lookahead {
-                        Some(__token) => {
-                            __lalrpop_util::ParseError::UnrecognizedToken {
-                                token: __token,
-                                expected: __expected,
-                            }
-                        }
-                        None => {
-                            let __location = __sym2.2.clone();
-                            __lalrpop_util::ParseError::UnrecognizedEof {
-                                location: __location,
-                                expected: __expected,
-                            }
-                        }
-                    }
-                )
-            }
-        }
-    }
-
-    fn __state11<
-        __TOKENS: Iterator<Item=Result<(i64, Tok, i64),__lalrpop_util::ParseError<i64, Tok, u64>>>,
-    >(
-        __tokens: &mut __TOKENS,
-        __sym0: (i64, Tok, i64),
-        __sym1: (i64, Tree, i64),
-        __sym2: (i64, Tok, i64),
-        _: core::marker::PhantomData<()>,
-    ) -> Result<(Option<(i64, Tok, i64)>, __Nonterminal<>), __lalrpop_util::ParseError<i64, Tok, u64>>
-    {
-        let mut __result: (Option<(i64, Tok, i64)>, __Nonterminal<>);
-        let __lookahead = match __tokens.next() {
-            Some(Ok(v)) => Some(v),
-            Some(Err(e)) => return Err(e),
-            None => None,
-        };
-        match __lookahead {
-            None => {
-                let __start = __sym0.0.clone();
-                let __end = __sym2.2.clone();
-                let __nt = super::__action17::<>(__sym0, __sym1, __sym2);
-                let __nt = __Nonterminal::S((
-                    __start,
-                    __nt,
-                    __end,
-                ));
-                __result = (__lookahead, __nt);
-                return Ok(__result);
-            }
-            _ => {
-                #[allow(clippy::needless_raw_string_hashes)]
-                let __expected = alloc::vec![
-                ];
-                return Err(
-                    match __lookahead {
-                        Some(__token) => {
-                            __lalrpop_util::ParseError::UnrecognizedToken {
-                                token: __token,
-                                expected: __expected,
-                            }
-                        }
-                        None => {
-                            let __location = __sym2.2.clone();
-                            __lalrpop_util::ParseError::UnrecognizedEof {
-                                location: __location,
-                                expected: __expected,
-                            }
-                        }
-                    }
-                )
-            }
-        }
-    }
-
-    fn __state12<
         __TOKENS: Iterator<Item=Result<(i64, Tok, i64),__lalrpop_util::ParseError<i64, Tok, u64>>>,
     >(
         __tokens: &mut __TOKENS,
@@ -754,11 +643,13 @@ mod __parse__S {
         }
     }
 
-    fn __state13<
+    fn __state11<
         __TOKENS: Iterator<Item=Result<(i64, Tok, i64),__lalrpop_util::ParseError<i64, Tok, u64>>>,
     >(
         __tokens: &mut __TOKENS,
         __sym0: (i64, Tok, i64),
+        __sym1: (i64, Tree, i64),
+        __sym2: (i64, Tok, i64),
         _: core::marker::PhantomData<()>,
     ) -> Result<(Option<(i64, Tok, i64)>, __Nonterminal<>), __lalrpop_util::ParseError<i64, Tok, u64>>
     {
@@ -769,10 +660,59 @@ mod __parse__S {
             None => None,
         };
         match __lookahead {
-            Some((_, Tok('c', _, _, _), _)) => {
+            None => {
                 let __start = __sym0.0.clone();
-                let __end = __sym0.2.clone();
-                let __nt = super::__action19::<>(__sym0);
+                let __end = __sym2.2.clone();
+                let __nt = super::__action19::<>(__sym0, __sym1, __sym2);
+                let __nt = __Nonterminal::S((
+                    __start,
+                    __nt,
+                    __end,
+                ));
+                __result = (__lookahead, __nt);
+                return Ok(__result);
+            }
+            _ => {
+                #[allow(clippy::needless_raw_string_hashes)]
+                let __expected = alloc::vec![
+                ];
+                return Err(
+                    match __lookahead {
+                        Some(__token) => {
+                            __lalrpop_util::ParseError::UnrecognizedToken {
+                                token: __token,
+                                expected: __expected,
+                            }
+                        }
+                        None => {
+                            let __location = __sym2.2.clone();
+                            __lalrpop_util::ParseError::UnrecognizedEof {
+                                location: __location,
+                                expected: __expected,
+                            }
+                        }
+                    }
+                )
+            }
+        }
+    }
+
+    fn __state12<
+        __TOKENS: Iterator<Item=Result<(i64, Tok, i64),__lalrpop_util::ParseError<i64, Tok, u64>>>,
+    >(
+        __tokens: &mut __TOKENS,
+        __lookahead: Option<(i64, Tok, i64)>,
+        __sym0: (i64, Tok, i64),
+        __sym1: (i64, Tree, i64),
+        _: core::marker::PhantomData<()>,
+    ) -> Result<(Option<(i64, Tok, i64)>, __Nonterminal<>), __lalrpop_util::ParseError<i64, Tok, u64>>
+    {
+        let mut __result: (Option<(i64, Tok, i64)>, __Nonterminal<>);
+        match __lookahead {
+            Some((_, Tok('d', _, _, _), _)) => {
+                let __start = __sym0.0.clone();
+                let __end = __sym1.2.clone();
+                let __nt = super::__action22::<>(__sym0, __sym1);
                 let __nt = __Nonterminal::X((
                     __start,
                     __nt,
@@ -781,10 +721,10 @@ mod __parse__S {
                 __result = (__lookahead, __nt);
                 return Ok(__result);
             }
-            Some((_, Tok('d', _, _, _), _)) => {
+            Some((_, Tok('c', _, _, _), _)) => {
                 let __start = __sym0.0.clone();
-                let __end = __sym0.2.clone();
-                let __nt = super::__action20::<>(__sym0);
+                let __end = __sym1.2.clone();
+                let __nt = super::__action23::<>(__sym0, __sym1);
                 let __nt = __Nonterminal::Y((
                     __start,
                     __nt,
@@ -808,7 +748,233 @@ mod __parse__S {
                             }
                         }
                         None => {
+                            let __location = __sym1.2.clone();
+                            __lalrpop_util::ParseError::UnrecognizedEof {
+                                location: __location,
+                                expected: __expected,
+                            }
+                        }
+                    }
+                )
+            }
+        }
+    }
+
+    fn __state13<
+        __TOKENS: Iterator<Item=Result<(i64, Tok, i64),__lalrpop_util::ParseError<i64, Tok, u64>>>,
+    >(
+        __tokens: &mut __TOKENS,
+        __sym0: (i64, Tok, i64),
+        _: core::marker::PhantomData<()>,
+    ) -> Result<(Option<(i64, Tok, i64)>, __Nonterminal<>), __lalrpop_util::ParseError<i64, Tok, u64>>
+    {
+        let mut __result: (Option<(i64, Tok, i64)>, __Nonterminal<>);
+        let __lookahead = match __tokens.next() {
+            Some(Ok(v)) => Some(v),
+            Some(Err(e)) => return Err(e),
+            None => None,
+        };
+        match __lookahead {
+            Some((_, Tok('c', _, _, _), _)) |
+            Some((_, Tok('d', _, _, _), _)) => {
+                let __start = __sym0.0.clone();
+                let __end = __sym0.2.clone();
+                let __nt = super::__action17::<>(__sym0);
+                let __nt = __Nonterminal::Q((
+                    __start,
+                    __nt,
+                    __end,
+                ));
+                __result = (__lookahead, __nt);
+                return Ok(__result);
+            }
+            _ => {
+                #[allow(clippy::needless_raw_string_hashes)]
+                let __expected = alloc::vec![
+                    r###""c""###.to_string(),
+                    r###""d""###.to_string(),
+                ];
+                return Err(
+                    match __lookahead {
+                        Some(__token) => {
+                            __lalrpop_util::ParseError::UnrecognizedToken {
+                                token: __token,
+                                expected: __expected,
+                            }
+                        }
+                        None => {
                             let __location = __sym0.2.clone();
+                            __lalrpop_util::ParseError::UnrecognizedEof {
+                                location: __location,
+                                expected: __expected,
+                            }
+                        }
+                    }
+                )
+            }
+        }
+    }
+
+    fn __state14<
+        __TOKENS: Iterator<Item=Result<(i64, Tok, i64),__lalrpop_util::ParseError<i64, Tok, u64>>>,
+    >(
+        __tokens: &mut __TOKENS,
+        __sym0: (i64, Tok, i64),
+        __sym1: (i64, Tree, i64),
+        __sym2: (i64, Tok, i64),
+        _: core::marker::PhantomData<()>,
+    ) -> Result<(Option<(i64, Tok, i64)>, __Nonterminal<>), __lalrpop_util::ParseError<i64, Tok, u64>>
+    {
+        let mut __result: (Option<(i64, Tok, i64)>, __Nonterminal<>);
+        let __lookahead = match __tokens.next() {
+            Some(Ok(v)) => Some(v),
+            Some(Err(e)) => return Err(e),
+            None => None,
+        };
+        match __lookahead {
+            None => {
+                let __start = __sym0.0.clone();
+                let __end = __sym2.2.clone();
+                let __nt = super::__action20::<>(__sym0, __sym1, __sym2);
+                let __nt = __Nonterminal::S((
+                    __start,
+                    __nt,
+                    __end,
+                ));
+                __result = (__lookahead, __nt);
+                return Ok(__result);
+            }
+            _ => {
+                #[allow(clippy::needless_raw_string_hashes)]
+                let __expected = alloc::vec![
+                ];
+                return Err(
+                    match __lookahead {
+                        Some(__token) => {
+                            __lalrpop_util::ParseError::UnrecognizedToken {
+                                token: __token,
+                                expected: __expected,
+                            }
+                        }
+                        None => {
+                            let __location = __sym2.2.clone();
+                            __lalrpop_util::ParseError::UnrecognizedEof {
+                                location: __location,
+                                expected: __expected,
+                            }
+                        }
+                    }
+                )
+            }
+        }
+    }
+
+    fn __state15<
+        __TOKENS: Iterator<Item=Result<(i64, Tok, i64),__lalrpop_util::ParseError<i64, Tok, u64>>>,
+    >(
+        __tokens: &mut __TOKENS,
+        __sym0: (i64, Tok, i64),
+        __sym1: (i64, Tree, i64),
+        __sym2: (i64, Tok, i64),
+        _: core::marker::PhantomData<()>,
+    ) -> Result<(Option<(i64, Tok, i64)>, __Nonterminal<>), __lalrpop_util::ParseError<i64, Tok, u64>>
+    {
+        let mut __result: (Option<(i64, Tok, i64)>, __Nonterminal<>);
+        let __lookahead = match __tokens.next() {
+            Some(Ok(v)) => Some(v),
+            Some(Err(e)) => return Err(e),
+            None => None,
+        };
+        match __lookahead {
+            None => {
+                let __start = __sym0.0.clone();
+                let __end = __sym2.2.clone();
+                let __nt = super::__action21::<>(__sym0, __sym1, __sym2);
+                let __nt = __Nonterminal::S((
+                    __start,
+                    __nt,
+                    __end,
+                ));
+                __result = (__lookahead, __nt);
+                return Ok(__result);
+            }
+            _ => {
+                #[allow(clippy::needless_raw_string_hashes)]
+                let __expected = alloc::vec![
+                ];
+                return Err(
+                    match __lookahead {
+                        Some(__token) => {
+                            __lalrpop_util::ParseError::UnrecognizedToken {
+                                token: __token,
+                                expected: __expected,
+                            }
+                        }
+                        None => {
+                            let __location = __sym2.2.clone();
+                            __lalrpop_util::ParseError::UnrecognizedEof {
+                                location: __location,
+                                expected: __expected,
+                            }
+                        }
+                    }
+                )
+            }
+        }
+    }
+
+    fn __state16<
+        __TOKENS: Iterator<Item=Result<(i64, Tok, i64),__lalrpop_util::ParseError<i64, Tok, u64>>>,
+    >(
+        __tokens: &mut __TOKENS,
+        __lookahead: Option<(i64, Tok, i64)>,
+        __sym0: (i64, Tok, i64),
+        __sym1: (i64, Tree, i64),
+        _: core::marker::PhantomData<()>,
+    ) -> Result<(Option<(i64, Tok, i64)>, __Nonterminal<>), __lalrpop_util::ParseError<i64, Tok, u64>>
+    {
+        let mut __result: (Option<(i64, Tok, i64)>, __Nonterminal<>);
+        match __lookahead {
+            Some((_, Tok('c', _, _, _), _)) => {
+                let __start = __sym0.0.clone();
+                let __end = __sym1.2.clone();
+                let __nt = super::__action22::<>(__sym0, __sym1);
+                let __nt = __Nonterminal::X((
+                    __start,
+                    __nt,
+                    __end,
+                ));
+                __result = (__lookahead, __nt);
+                return Ok(__result);
+            }
+            Some((_, Tok('d', _, _, _), _)) => {
+                let __start = __sym0.0.clone();
+                let __end = __sym1.2.clone();
+                let __nt = super::__action23::<>(__sym0, __sym1);
+                let __nt = __Nonterminal::Y((
+                    __start,
+                    __nt,
+                    __end,
+                ));
+                __result = (__lookahead, __nt);
+                return Ok(__result);
+            }
+            _ => {
+                #[allow(clippy::needless_raw_string_hashes)]
+                let __expected = alloc::vec![
+                    r###""c""###.to_string(),
+                    r###""d""###.to_string(),
+                ];
+                return Err(
+                    match __lookahead {
+                        Some(__token) => {
+                            __lalrpop_util::ParseError::UnrecognizedToken {
+                                token: __token,
+                                expected: __expected,
+                            }
+                        }
+                        None => {
+                            let __location = __sym1.2.clone();
                             __lalrpop_util::ParseError::UnrecognizedEof {
                                 location: __location,
                                 expected: __expected,
@@ -851,11 +1017,12 @@ fn __action2<
     (_, l, _): (i64, i64, i64),
     (_, c0, _): (i64, Tok, i64),
     (_, c1, _): (i64, Tree, i64),
+    (_, pL2, _): (i64, i64, i64),
     (_, c2, _): (i64, Tok, i64),
     (_, r, _): (i64, i64, i64),
 ) -> Tree
 {
-    node("S#1", l, r, vec![Tree::from(c0), Tree::from(c1), Tree::from(c2)])
+    { probe("S#1", 2, 'L', pL2); node("S#1", l, r, vec![Tree::from(c0), Tree::from(c1), Tree::from(c2)]) }
 }
 
 #[allow(clippy::too_many_arguments, clippy::needless_lifetimes, clippy::just_underscores_and_digits, clippy::extra_unused_type_parameters)]
@@ -864,24 +1031,28 @@ fn __action3<
     (_, l, _): (i64, i64, i64),
     (_, c0, _): (i64, Tok, i64),
     (_, c1, _): (i64, Tree, i64),
+    (_, pL2, _): (i64, i64, i64),
     (_, c2, _): (i64, Tok, i64),
+    (_, pL3, _): (i64, i64, i64),
     (_, r, _): (i64, i64, i64),
 ) -> Tree
 {
-    node("S#2", l, r, vec![Tree::from(c0), Tree::from(c1), Tree::from(c2)])
+    { probe("S#2", 2, 'L', pL2); probe("S#2", 3, 'L', pL3); node("S#2", l, r, vec![Tree::from(c0), Tree::from(c1), Tree::from(c2)]) }
 }
 
 #[allow(clippy::too_many_arguments, clippy::needless_lifetimes, clippy::just_underscores_and_digits, clippy::extra_unused_type_parameters)]
 fn __action4<
 >(
     (_, l, _): (i64, i64, i64),
+    (_, pL0, _): (i64, i64, i64),
     (_, c0, _): (i64, Tok, i64),
+    (_, pL1, _): (i64, i64, i64),
     (_, c1, _): (i64, Tree, i64),
     (_, c2, _): (i64, Tok, i64),
     (_, r, _): (i64, i64, i64),
 ) -> Tree
 {
-    node("S#3", l, r, vec![Tree::from(c0), Tree::from(c1), Tree::from(c2)])
+    { probe("S#3", 0, 'L', pL0); probe("S#3", 1, 'L', pL1); node("S#3", l, r, vec![Tree::from(c0), Tree::from(c1), Tree::from(c2)]) }
 }
 
 #[allow(clippy::too_many_arguments, clippy::needless_lifetimes, clippy::just_underscores_and_digits, clippy::extra_unused_type_parameters)]
@@ -889,25 +1060,44 @@ fn __action5<
 >(
     (_, l, _): (i64, i64, i64),
     (_, c0, _): (i64, Tok, i64),
+    (_, pL1, _): (i64, i64, i64),
+    (_, c1, _): (i64, Tree, i64),
     (_, r, _): (i64, i64, i64),
 ) -> Tree
 {
-    node("X#0", l, r, vec![Tree::from(c0)])
+    { probe("X#0", 1, 'L', pL1); node("X#0", l, r, vec![Tree::from(c0), Tree::from(c1)]) }
 }
 
 #[allow(clippy::too_many_arguments, clippy::needless_lifetimes, clippy::just_underscores_and_digits, clippy::extra_unused_type_parameters)]
 fn __action6<
 >(
     (_, l, _): (i64, i64, i64),
+    (_, pR0, _): (i64, i64, i64),
     (_, c0, _): (i64, Tok, i64),
+    (_, pL1, _): (i64, i64, i64),
+    (_, c1, _): (i64, Tree, i64),
+    (_, pR2, _): (i64, i64, i64),
     (_, r, _): (i64, i64, i64),
 ) -> Tree
 {
-    node("Y#0", l, r, vec![Tree::from(c0)])
+    { probe("Y#0", 0, 'R', pR0); probe("Y#0", 1, 'L', pL1); probe("Y#0", 2, 'R', pR2); node("Y#0", l, r, vec![Tree::from(c0), Tree::from(c1)]) }
+}
+
+#[allow(clippy::too_many_arguments, clippy::needless_lifetimes, clippy::just_underscores_and_digits, clippy::extra_unused_type_parameters)]
+fn __action7<
+>(
+    (_, l, _): (i64, i64, i64),
+    (_, pR0, _): (i64, i64, i64),
+    (_, c0, _): (i64, Tok, i64),
+    (_, pR1, _): (i64, i64, i64),
+    (_, r, _): (i64, i64, i64),
+) -> Tree
+{
+    { probe("Q#0", 0, 'R', pR0); probe("Q#0", 1, 'R', pR1); node("Q#0", l, r, vec![Tree::from(c0)]) }
 }
 
 #[allow(clippy::needless_lifetimes, clippy::clone_on_copy)]
-fn __action7<
+fn __action8<
 >(
     __lookbehind: &i64,
     __lookahead: &i64,
@@ -917,7 +1107,7 @@ fn __action7<
 }
 
 #[allow(clippy::needless_lifetimes, clippy::clone_on_copy)]
-fn __action8<
+fn __action9<
 >(
     __lookbehind: &i64,
     __lookahead: &i64,
@@ -928,48 +1118,22 @@ fn __action8<
 
 #[allow(clippy::too_many_arguments, clippy::needless_lifetimes,
     clippy::just_underscores_and_digits, clippy::clone_on_copy, clippy::unit_arg)]
-fn __action9<
->(
-    __0: (i64, Tok, i64),
-    __1: (i64, Tree, i64),
-    __2: (i64, Tok, i64),
-    __3: (i64, i64, i64),
-) -> Tree
-{
-    let __start0 = __0.0.clone();
-    let __end0 = __0.0.clone();
-    let __temp0 = __action8(
-        &__start0,
-        &__end0,
-    );
-    let __temp0 = (__start0, __temp0, __end0);
-    __action1(
-        __temp0,
-        __0,
-        __1,
-        __2,
-        __3,
-    )
-}
-
-#[allow(clippy::too_many_arguments, clippy::needless_lifetimes,
-    clippy::just_underscores_and_digits, clippy::clone_on_copy, clippy::unit_arg)]
 fn __action10<
 >(
-    __0: (i64, Tok, i64),
-    __1: (i64, Tree, i64),
-    __2: (i64, Tok, i64),
+    __0: (i64, i64, i64),
+    __1: (i64, Tok, i64),
+    __2: (i64, i64, i64),
     __3: (i64, i64, i64),
 ) -> Tree
 {
     let __start0 = __0.0.clone();
     let __end0 = __0.0.clone();
-    let __temp0 = __action8(
+    let __temp0 = __action9(
         &__start0,
         &__end0,
     );
     let __temp0 = (__start0, __temp0, __end0);
-    __action2(
+    __action7(
         __temp0,
         __0,
         __1,
@@ -990,12 +1154,12 @@ fn __action11<
 {
     let __start0 = __0.0.clone();
     let __end0 = __0.0.clone();
-    let __temp0 = __action8(
+    let __temp0 = __action9(
         &__start0,
         &__end0,
     );
     let __temp0 = (__start0, __temp0, __end0);
-    __action3(
+    __action1(
         __temp0,
         __0,
         __1,
@@ -1016,15 +1180,23 @@ fn __action12<
 {
     let __start0 = __0.0.clone();
     let __end0 = __0.0.clone();
-    let __temp0 = __action8(
+    let __start1 = __1.2.clone();
+    let __end1 = __2.0.clone();
+    let __temp0 = __action9(
         &__start0,
         &__end0,
     );
     let __temp0 = (__start0, __temp0, __end0);
-    __action4(
+    let __temp1 = __action9(
+        &__start1,
+        &__end1,
+    );
+    let __temp1 = (__start1, __temp1, __end1);
+    __action2(
         __temp0,
         __0,
         __1,
+        __temp1,
         __2,
         __3,
     )
@@ -1035,20 +1207,40 @@ fn __action12<
 fn __action13<
 >(
     __0: (i64, Tok, i64),
-    __1: (i64, i64, i64),
+    __1: (i64, Tree, i64),
+    __2: (i64, Tok, i64),
+    __3: (i64, i64, i64),
 ) -> Tree
 {
     let __start0 = __0.0.clone();
     let __end0 = __0.0.clone();
-    let __temp0 = __action8(
+    let __start1 = __1.2.clone();
+    let __end1 = __2.0.clone();
+    let __start2 = __2.2.clone();
+    let __end2 = __3.0.clone();
+    let __temp0 = __action9(
         &__start0,
         &__end0,
     );
     let __temp0 = (__start0, __temp0, __end0);
-    __action5(
+    let __temp1 = __action9(
+        &__start1,
+        &__end1,
+    );
+    let __temp1 = (__start1, __temp1, __end1);
+    let __temp2 = __action9(
+        &__start2,
+        &__end2,
+    );
+    let __temp2 = (__start2, __temp2, __end2);
+    __action3(
         __temp0,
         __0,
         __1,
+        __temp1,
+        __2,
+        __temp2,
+        __3,
     )
 }
 
@@ -1057,20 +1249,40 @@ fn __action13<
 fn __action14<
 >(
     __0: (i64, Tok, i64),
-    __1: (i64, i64, i64),
+    __1: (i64, Tree, i64),
+    __2: (i64, Tok, i64),
+    __3: (i64, i64, i64),
 ) -> Tree
 {
     let __start0 = __0.0.clone();
     let __end0 = __0.0.clone();
-    let __temp0 = __action8(
+    let __start1 = __0.0.clone();
+    let __end1 = __0.0.clone();
+    let __start2 = __0.2.clone();
+    let __end2 = __1.0.clone();
+    let __temp0 = __action9(
         &__start0,
         &__end0,
     );
     let __temp0 = (__start0, __temp0, __end0);
-    __action6(
+    let __temp1 = __action9(
+        &__start1,
+        &__end1,
+    );
+    let __temp1 = (__start1, __temp1, __end1);
+    let __temp2 = __action9(
+        &__start2,
+        &__end2,
+    );
+    let __temp2 = (__start2, __temp2, __end2);
+    __action4(
         __temp0,
+        __temp1,
         __0,
+        __temp2,
         __1,
+        __2,
+        __3,
     )
 }
 
@@ -1080,21 +1292,29 @@ fn __action15<
 >(
     __0: (i64, Tok, i64),
     __1: (i64, Tree, i64),
-    __2: (i64, Tok, i64),
+    __2: (i64, i64, i64),
 ) -> Tree
 {
-    let __start0 = __2.2.clone();
-    let __end0 = __2.2.clone();
-    let __temp0 = __action7(
+    let __start0 = __0.0.clone();
+    let __end0 = __0.0.clone();
+    let __start1 = __0.2.clone();
+    let __end1 = __1.0.clone();
+    let __temp0 = __action9(
         &__start0,
         &__end0,
     );
     let __temp0 = (__start0, __temp0, __end0);
-    __action9(
+    let __temp1 = __action9(
+        &__start1,
+        &__end1,
+    );
+    let __temp1 = (__start1, __temp1, __end1);
+    __action5(
+        __temp0,
         __0,
+        __temp1,
         __1,
         __2,
-        __temp0,
     )
 }
 
@@ -1102,23 +1322,35 @@ fn __action15<
     clippy::just_underscores_and_digits, clippy::clone_on_copy, clippy::unit_arg)]
 fn __action16<
 >(
-    __0: (i64, Tok, i64),
-    __1: (i64, Tree, i64),
-    __2: (i64, Tok, i64),
+    __0: (i64, i64, i64),
+    __1: (i64, Tok, i64),
+    __2: (i64, Tree, i64),
+    __3: (i64, i64, i64),
+    __4: (i64, i64, i64),
 ) -> Tree
 {
-    let __start0 = __2.2.clone();
-    let __end0 = __2.2.clone();
-    let __temp0 = __action7(
+    let __start0 = __0.0.clone();
+    let __end0 = __0.0.clone();
+    let __start1 = __1.2.clone();
+    let __end1 = __2.0.clone();
+    let __temp0 = __action9(
         &__start0,
         &__end0,
     );
     let __temp0 = (__start0, __temp0, __end0);
-    __action10(
+    let __temp1 = __action9(
+        &__start1,
+        &__end1,
+    );
+    let __temp1 = (__start1, __temp1, __end1);
+    __action6(
+        __temp0,
         __0,
         __1,
+        __temp1,
         __2,
-        __temp0,
+        __3,
+        __4,
     )
 }
 
@@ -1127,22 +1359,34 @@ fn __action16<
 fn __action17<
 >(
     __0: (i64, Tok, i64),
-    __1: (i64, Tree, i64),
-    __2: (i64, Tok, i64),
 ) -> Tree
 {
-    let __start0 = __2.2.clone();
-    let __end0 = __2.2.clone();
-    let __temp0 = __action7(
+    let __start0 = __0.0.clone();
+    let __end0 = __0.0.clone();
+    let __start1 = __0.2.clone();
+    let __end1 = __0.2.clone();
+    let __start2 = __0.2.clone();
+    let __end2 = __0.2.clone();
+    let __temp0 = __action8(
         &__start0,
         &__end0,
     );
     let __temp0 = (__start0, __temp0, __end0);
-    __action11(
-        __0,
-        __1,
-        __2,
+    let __temp1 = __action8(
+        &__start1,
+        &__end1,
+    );
+    let __temp1 = (__start1, __temp1, __end1);
+    let __temp2 = __action8(
+        &__start2,
+        &__end2,
+    );
+    let __temp2 = (__start2, __temp2, __end2);
+    __action10(
         __temp0,
+        __0,
+        __temp1,
+        __temp2,
     )
 }
 
@@ -1157,7 +1401,31 @@ fn __action18<
 {
     let __start0 = __2.2.clone();
     let __end0 = __2.2.clone();
-    let __temp0 = __action7(
+    let __temp0 = __action8(
+        &__start0,
+        &__end0,
+    );
+    let __temp0 = (__start0, __temp0, __end0);
+    __action11(
+        __0,
+        __1,
+        __2,
+        __temp0,
+    )
+}
+
+#[allow(clippy::too_many_arguments, clippy::needless_lifetimes,
+    clippy::just_underscores_and_digits, clippy::clone_on_copy, clippy::unit_arg)]
+fn __action19<
+>(
+    __0: (i64, Tok, i64),
+    __1: (i64, Tree, i64),
+    __2: (i64, Tok, i64),
+) -> Tree
+{
+    let __start0 = __2.2.clone();
+    let __end0 = __2.2.clone();
+    let __temp0 = __action8(
         &__start0,
         &__end0,
     );
@@ -1172,41 +1440,109 @@ fn __action18<
 
 #[allow(clippy::too_many_arguments, clippy::needless_lifetimes,
     clippy::just_underscores_and_digits, clippy::clone_on_copy, clippy::unit_arg)]
-fn __action19<
+fn __action20<
 >(
     __0: (i64, Tok, i64),
+    __1: (i64, Tree, i64),
+    __2: (i64, Tok, i64),
 ) -> Tree
 {
-    let __start0 = __0.2.clone();
-    let __end0 = __0.2.clone();
-    let __temp0 = __action7(
+    let __start0 = __2.2.clone();
+    let __end0 = __2.2.clone();
+    let __temp0 = __action8(
         &__start0,
         &__end0,
     );
     let __temp0 = (__start0, __temp0, __end0);
     __action13(
         __0,
+        __1,
+        __2,
         __temp0,
     )
 }
 
 #[allow(clippy::too_many_arguments, clippy::needless_lifetimes,
     clippy::just_underscores_and_digits, clippy::clone_on_copy, clippy::unit_arg)]
-fn __action20<
+fn __action21<
 >(
     __0: (i64, Tok, i64),
+    __1: (i64, Tree, i64),
+    __2: (i64, Tok, i64),
 ) -> Tree
 {
-    let __start0 = __0.2.clone();
-    let __end0 = __0.2.clone();
-    let __temp0 = __action7(
+    let __start0 = __2.2.clone();
+    let __end0 = __2.2.clone();
+    let __temp0 = __action8(
         &__start0,
         &__end0,
     );
     let __temp0 = (__start0, __temp0, __end0);
     __action14(
         __0,
+        __1,
+        __2,
         __temp0,
+    )
+}
+
+#[allow(clippy::too_many_arguments, clippy::needless_lifetimes,
+    clippy::just_underscores_and_digits, clippy::clone_on_copy, clippy::unit_arg)]
+fn __action22<
+>(
+    __0: (i64, Tok, i64),
+    __1: (i64, Tree, i64),
+) -> Tree
+{
+    let __start0 = __1.2.clone();
+    let __end0 = __1.2.clone();
+    let __temp0 = __action8(
+        &__start0,
+        &__end0,
+    );
+    let __temp0 = (__start0, __temp0, __end0);
+    __action15(
+        __0,
+        __1,
+        __temp0,
+    )
+}
+
+#[allow(clippy::too_many_arguments, clippy::needless_lifetimes,
+    clippy::just_underscores_and_digits, clippy::clone_on_copy, clippy::unit_arg)]
+fn __action23<
+>(
+    __0: (i64, Tok, i64),
+    __1: (i64, Tree, i64),
+) -> Tree
+{
+    let __start0 = __0.0.clone();
+    let __end0 = __0.0.clone();
+    let __start1 = __1.2.clone();
+    let __end1 = __1.2.clone();
+    let __start2 = __1.2.clone();
+    let __end2 = __1.2.clone();
+    let __temp0 = __action8(
+        &__start0,
+        &__end0,
+    );
+    let __temp0 = (__start0, __temp0, __end0);
+    let __temp1 = __action8(
+        &__start1,
+        &__end1,
+    );
+    let __temp1 = (__start1, __temp1, __end1);
+    let __temp2 = __action8(
+        &__start2,
+        &__end2,
+    );
+    let __temp2 = (__start2, __temp2, __end2);
+    __action16(
+        __temp0,
+        __0,
+        __1,
+        __temp1,
+        __temp2,
     )
 }
 
